@@ -13,6 +13,11 @@ pub struct COp {
     /// 0 = original, 1 = clone (original before the clone exists), 2 = unrelated instance
     pub target: u8,
     pub inp: Inp,
+    /// `reset()` is called on the target immediately before it is fed `inp` (the replay model does the same on
+    /// its fresh instance): "every interleaving of operations" includes this one, and what a reset does to a
+    /// buffer that a clone may still share is observable only through it
+    #[serde(default)]
+    pub reset: bool,
 }
 
 #[derive(Clone, Debug, Serialize, Deserialize)]
@@ -60,7 +65,7 @@ pub fn check(c: &Case, ctx: &mut Ctx) -> Result<(), Failure> {
     let mut other = fresh(&ocfg)?;
     let mut clone: Option<Ind> = None;
     // per-instance input subsequences and recorded outputs
-    let mut ins: [Vec<Inp>; 3] = [vec![], vec![], vec![]];
+    let mut ins: [Vec<(Inp, bool)>; 3] = [vec![], vec![], vec![]];
     let mut outs: [Vec<Out>; 3] = [vec![], vec![], vec![]];
     let mut fp = Fp::new("C05");
     c.cfg.fp(&mut fp);
@@ -97,12 +102,23 @@ pub fn check(c: &Case, ctx: &mut Ctx) -> Result<(), Failure> {
         fp.u(tgt as u64);
         fp.f(op.inp.bar.c);
         fp.f(op.inp.bar.h);
+        if op.reset {
+            fp.u(0xDEAD);
+            match tgt {
+                0 => orig.reset(),
+                1 => clone.as_mut().unwrap().reset(),
+                _ => other.reset(),
+            }
+            if clone.is_some() && tgt < 2 {
+                ctx.label("reset_after_clone_point");
+            }
+        }
         let o = match tgt {
             0 => feed(&mut orig, &op.inp),
             1 => feed(clone.as_mut().unwrap(), &op.inp),
             _ => feed(&mut other, &op.inp),
         };
-        ins[tgt as usize].push(op.inp.clone());
+        ins[tgt as usize].push((op.inp.clone(), op.reset));
         outs[tgt as usize].push(o);
         if clone.is_some() && tgt < 2 {
             if tgt != last_target && last_target != 9 {
@@ -120,13 +136,16 @@ pub fn check(c: &Case, ctx: &mut Ctx) -> Result<(), Failure> {
     let who = ["original", "clone", "unrelated instance"];
     let cfgs = [c.cfg.clone(), c.cfg.clone(), ocfg.clone()];
     let has_clone = clone.is_some();
-    let replay = |ins: &[Vec<Inp>; 3]| -> Result<Vec<Vec<Out>>, Failure> {
+    let replay = |ins: &[Vec<(Inp, bool)>; 3]| -> Result<Vec<Vec<Out>>, Failure> {
         let mut all = vec![];
         for j in 0..3 {
             let mut v = vec![];
             if !(j == 1 && !has_clone) {
                 let mut f = fresh(&cfgs[j])?;
-                for inp in ins[j].iter() {
+                for (inp, rst) in ins[j].iter() {
+                    if *rst {
+                        f.reset();
+                    }
                     v.push(feed(&mut f, inp));
                 }
             }
@@ -148,7 +167,7 @@ pub fn check(c: &Case, ctx: &mut Ctx) -> Result<(), Failure> {
         if j == 1 && !has_clone {
             continue;
         }
-        for (s, inp) in ins[j].iter().enumerate() {
+        for (s, (inp, _)) in ins[j].iter().enumerate() {
             let o = replayed[j][s];
             if !o.bits_eq(&outs[j][s]) {
                 let sym = if j == 1 && s < pre_clone_inputs { "nondeterministic" } else if j == 1 { "clone_diverges" } else { "interference" };
@@ -209,7 +228,8 @@ fn strategy(cap: usize, maxops: usize) -> BoxedStrategy<Case> {
         })
         .prop_map(|(cfg, pre, post, other, th, clone_from_dirt, dirt_period_delta)| {
             let clone_at = pre.len();
-            let ops = pre.into_iter().chain(post).map(|(target, inp)| COp { target, inp }).collect();
+            // a reset() before about one input in 24 (chosen from the input's own bits: a pure function of the case)
+            let ops = pre.into_iter().chain(post).map(|(target, inp)| { let r = (inp.bar.c.to_bits() ^ inp.bar.v.to_bits().rotate_left(13)).wrapping_mul(0x9E3779B97F4A7C15) >> 59 == 3 && (inp.bar.h.to_bits() >> 3) % 3 != 0; COp { target, inp, reset: r } }).collect();
             Case { cfg, other: Some(other), replay_in_new_thread: th, clone_from_dirt, dirt_period_delta, predecessor: vec![], ops, clone_at }
         })
         .boxed()
@@ -329,7 +349,7 @@ fn thread_strategy() -> BoxedStrategy<TCase> {
 const EALPHA: [f64; 3] = [1.0, 3.0, f64::NAN];
 
 pub fn run(g: &mut Global) {
-    g.rule = "exhaustive: all 22 indicators x periods 1..=3 x every sequence of L operations over {original, clone} x {1, 3, NaN} x every clone position 0..=L; random: proptest interleavings over original / clone / unrelated instance with special values, clone taken after the window filled; thread stage: 16 distinct instances moved into 16 threads behind a barrier, compared with the sequential run. Oracle (replay model): every instance's outputs are bit-identical to those of a fresh instance fed exactly the inputs addressed to it (the clone: the original's prefix, then its own). Non-trivial = clone taken after >= n inputs and afterwards original and clone each received >= n+1 inputs with >= 2 switches between them; distinct by hash of (kind, parameters, clone position, targets, inputs).".into();
+    g.rule = "exhaustive: all 22 indicators x periods 1..=3 x every sequence of L operations over {original, clone} x {1, 3, NaN} x every clone position 0..=L; the same over {original, clone} x {1, 3} x {fed directly, reset() first} (enum_with_resets; the random stage also resets a target before about one input in 50, the replay model doing the same); random: proptest interleavings over original / clone / unrelated instance with special values, clone taken after the window filled; thread stage: 16 distinct instances moved into 16 threads behind a barrier, compared with the sequential run. Oracle (replay model): every instance's outputs are bit-identical to those of a fresh instance fed exactly the inputs addressed to it (the clone: the original's prefix, then its own). Non-trivial = clone taken after >= n inputs and afterwards original and clone each received >= n+1 inputs with >= 2 switches between them; distinct by hash of (kind, parameters, clone position, targets, inputs).".into();
     g.assumptions = vec![
         "bit-identical comparison (to_bits), NaN payloads included".into(),
         "OS thread schedules are not controlled; the deciding evidence is the single-thread interleaving model, the thread stage is supporting evidence for lock/atomic-guarded shared state".into(),
@@ -346,8 +366,28 @@ pub fn run(g: &mut Global) {
             let j = i % per;
             let clone_at = (j % (l as u64 + 1)) as usize;
             let d = digits(j / (l as u64 + 1), 6, l);
-            let ops = d.iter().map(|&x| COp { target: (x / 3) as u8, inp: letter(EALPHA[x % 3]) }).collect();
+            let ops = d.iter().map(|&x| COp { target: (x / 3) as u8, inp: letter(EALPHA[x % 3]), reset: false }).collect();
             Case { cfg: cfg_small(kind, n), other: None, replay_in_new_thread: false, clone_from_dirt: if i % 2 == 0 { vec![] } else { vec![letter(7.0), letter(2.0), letter(9.0)] }, dirt_period_delta: (i % 3) as usize, predecessor: vec![], ops, clone_at }
+        },
+        &check,
+    );
+    // the same enumeration with reset() among the operations: every sequence of L' operations over
+    // {original, clone} x {1, 3} x {fed directly, reset() first}, every clone position (what a reset does to state
+    // that a clone may still share — copy-on-write buffers, reference-counted windows — shows only here)
+    let l2 = g.tier.pick(4usize, 5usize);
+    let per_r = ipow(8, l2) * (l2 as u64 + 1);
+    g.exhaustive(
+        "enum_with_resets",
+        per_r * 3 * 22,
+        &move |i| {
+            let r = i / per_r;
+            let n = (r % 3) as usize + 1;
+            let kind: Kind = ALL_KINDS[(r / 3) as usize];
+            let j = i % per_r;
+            let clone_at = (j % (l2 as u64 + 1)) as usize;
+            let d = digits(j / (l2 as u64 + 1), 8, l2);
+            let ops = d.iter().map(|&x| COp { target: ((x / 2) % 2) as u8, inp: letter([1.0, 3.0][x % 2]), reset: x >= 4 }).collect();
+            Case { cfg: cfg_small(kind, n), other: None, replay_in_new_thread: false, clone_from_dirt: if i % 4 != 1 { vec![] } else { vec![letter(7.0), letter(2.0)] }, dirt_period_delta: 0, predecessor: vec![], ops, clone_at }
         },
         &check,
     );
@@ -383,12 +423,12 @@ pub fn run(g: &mut Global) {
             let src = seq_of(r % sn, ml);
             let dirt = seq_of(r / sn, ml);
             let delta = [0usize, 0, 1, 2][((r % sn + r / sn) % 4) as usize];
-            let mut ops: Vec<COp> = src.iter().map(|&x| COp { target: 0, inp: letter(vals[x]) }).collect();
+            let mut ops: Vec<COp> = src.iter().map(|&x| COp { target: 0, inp: letter(vals[x]), reset: false }).collect();
             let clone_at = ops.len();
             for j in 0..n + 2 {
                 let v = if cont == 0 { vals[(j + 1) % 3] } else { vals[(2 * j) % 3] };
-                ops.push(COp { target: 0, inp: letter(v) });
-                ops.push(COp { target: 1, inp: letter(v) });
+                ops.push(COp { target: 0, inp: letter(v), reset: false });
+                ops.push(COp { target: 1, inp: letter(v), reset: false });
             }
             // an empty dirt list would mean plain clone(): keep clone_from by feeding then resetting nothing — use
             // a one-element history instead (the empty target is covered by the enum stage)
@@ -415,10 +455,10 @@ pub fn run(g: &mut Global) {
             let step = |t: usize| if up { 100.0 + t as f64 * 0.5 } else { 5000.0 - t as f64 * 0.5 };
             let plen = n + 5 + (rep as usize) * 3;
             let predecessor: Vec<Inp> = (0..plen).map(|t| letter(step(t))).collect();
-            let mut ops: Vec<COp> = (0..2 * n + 6).map(|t| COp { target: 0, inp: letter(step(plen + t) + 0.001 * unit(&mut st)) }).collect();
+            let mut ops: Vec<COp> = (0..2 * n + 6).map(|t| COp { target: 0, inp: letter(step(plen + t) + 0.001 * unit(&mut st)), reset: false }).collect();
             let clone_at = n + 2;
             for t in 0..n + 2 {
-                ops.push(COp { target: (t % 2) as u8, inp: letter(step(plen + 2 * n + 6 + t)) });
+                ops.push(COp { target: (t % 2) as u8, inp: letter(step(plen + 2 * n + 6 + t)), reset: false });
             }
             Case { cfg: cfg_small(kind, n), other: None, replay_in_new_thread: true, clone_from_dirt: vec![], dirt_period_delta: 0, predecessor, ops, clone_at }
         },
@@ -447,11 +487,11 @@ pub fn run(g: &mut Global) {
                 let inp = if t % 3 == 0 { letter_bar(v) } else { letter(v) };
                 let tgt = if t >= 2 * n + 3 && t % 2 == 1 { 1u8 } else { 0u8 };
                 if before {
-                    ops.push(COp { target: 2, inp: inp.clone() });
-                    ops.push(COp { target: tgt, inp });
+                    ops.push(COp { target: 2, inp: inp.clone(), reset: false });
+                    ops.push(COp { target: tgt, inp, reset: false });
                 } else {
-                    ops.push(COp { target: tgt, inp: inp.clone() });
-                    ops.push(COp { target: 2, inp });
+                    ops.push(COp { target: tgt, inp: inp.clone(), reset: false });
+                    ops.push(COp { target: 2, inp, reset: false });
                 }
             }
             Case { cfg: cfg_small(kind, n), other: Some(cfg_small(okind, n)), replay_in_new_thread: i % 3 == 0, clone_from_dirt: vec![], dirt_period_delta: 0, predecessor: vec![], ops, clone_at: 2 * (2 * n + 3) }
